@@ -507,6 +507,24 @@ def _replay(tdgl, script, base_tmp=None, sandbox=None, keep=False):
         finally:
             events.append({"ev": "close", "fs": fs_state(sandbox, tempd, cfg["out"], foreign, fmap), "frames": frames})
 
+    from tdgl.solution.solution import Solution as _Solution
+    orig_save_mesh, orig_to_hdf5 = DH.save_mesh, _Solution.to_hdf5
+
+    def outer_fault(where):
+        for n, f in enumerate(faults):
+            if not used_fault[n] and f["where"] == where and all(used_fault[:n]):
+                used_fault[n] = True
+                events.append({"ev": "fault", "where": where, "outcome": f["kind"], "at": f["at"]})
+                raise_kind(f["kind"])
+
+    def w_save_mesh(self, mesh):
+        outer_fault("run")
+        return orig_save_mesh(self, mesh)
+
+    def w_to_hdf5(self, *a, **kw):
+        outer_fault("assemble")
+        return orig_to_hdf5(self, *a, **kw)
+
     cwd = os.getcwd()
     old_tempdir = tempfile.tempdir
     result, exc_name, sol = "pending", "", None
@@ -515,6 +533,7 @@ def _replay(tdgl, script, base_tmp=None, sandbox=None, keep=False):
         os.chdir(sandbox)
         tempfile.tempdir = str(tempd)
         DH.__enter__, DH.__exit__, DH.save_time_step = w_enter, w_exit, w_save
+        DH.save_mesh, _Solution.to_hdf5 = w_save_mesh, w_to_hdf5
         import signal
 
         def _on_alarm(signum, frame):
@@ -541,6 +560,7 @@ def _replay(tdgl, script, base_tmp=None, sandbox=None, keep=False):
             signal.alarm(0)
             signal.signal(signal.SIGALRM, old_handler)
             DH.__enter__, DH.__exit__, DH.save_time_step = orig_enter, orig_exit, orig_save
+            DH.save_mesh, _Solution.to_hdf5 = orig_save_mesh, orig_to_hdf5
         if sol is not None:
             try:
                 times = sol.times
@@ -624,6 +644,8 @@ def normalise_for_tlc(trace):
                               "range": e["range"], "fs": _fs(e["fs"])})
         elif e["ev"] == "reject":
             out["ev"].append({"ev": "reject", "phase": e["phase"], "cls": e["cls"]})
+        elif e["ev"] == "fault":
+            out["ev"].append({"ev": "fault", "where": e["where"], "outcome": e["outcome"], "at": e["at"]})
     return out
 
 
